@@ -1,6 +1,7 @@
 From Coq Require Import List Arith.
 Import ListNotations.
 From UJ Require Import Engine.Engine Engine.EngineOrd.
+From UJ Require Import Base.Graph Cache.Prune Cache.PruneProofs.
 
 Theorem C01_start_after_deps :
   forall (c : cfg) (s : st), cfg_ok c -> reachable c s ->
@@ -14,3 +15,25 @@ Theorem C01_running_deps_finished :
   nth_error (ws s) w = Some (WRun n) -> reach (g c) m n -> In (EOk m) (hist s).
 Proof. exact running_deps_ok. Qed.
 Print Assumptions C01_running_deps_finished.
+
+(** Plan -> run graph: pruning, literal elision and source-literal removal never drop a dependency
+    between surviving nodes, and never invent one. *)
+Theorem C01_prune_preserves_deps :
+  forall (p : pgraph) (output : option nat) (a b : nat),
+  In a (pnodes (run_graph p output)) -> In b (pnodes (run_graph p output)) ->
+  reach (to_graph p) a b -> reach (to_graph (run_graph p output)) a b.
+Proof. exact run_graph_preserves_deps. Qed.
+Print Assumptions C01_prune_preserves_deps.
+
+Theorem C01_prune_no_new_deps :
+  forall (p : pgraph) (output : option nat) (a b : nat),
+  reach (to_graph (run_graph p output)) a b -> reach (to_graph p) a b.
+Proof. exact run_graph_no_new_deps. Qed.
+Print Assumptions C01_prune_no_new_deps.
+
+Theorem C01_prune_general :
+  forall (p : pgraph) (required : list nat) (output : option nat) (a b : nat),
+  In a (pnodes (prune_plan p required output)) -> In b (pnodes (prune_plan p required output)) ->
+  reach (to_graph p) a b -> reach (to_graph (prune_plan p required output)) a b.
+Proof. exact prune_preserves_deps. Qed.
+Print Assumptions C01_prune_general.
